@@ -161,3 +161,153 @@ def f64_bits(x):
 
 def f32_bits(x):
     return struct.unpack("<I", struct.pack("<f", x))[0]
+
+
+# ---------------------------------------------------------------------------------------------
+# floats
+
+import os
+
+HARD_DIR = os.path.join(os.path.dirname(os.path.abspath(__file__)), "hard", "data")
+DEF_NAN, DEF_INF, DEF_INFINITY = hexs("NaN"), hexs("inf"), hexs("infinity")
+
+
+def exp_char(r):
+    return ord("e") if r < 15 else ord("^")
+
+
+def popts(r=10, lossy=False, exp=None, dp=46, nan=DEF_NAN, inf=DEF_INF, infinity=DEF_INFINITY):
+    return "%d %d %d %s %s %s" % (1 if lossy else 0, exp if exp is not None else exp_char(r), dp, nan, inf, infinity)
+
+
+def wopts(mx="-", mn="-", pb="-", nb="-", rnd="r", trim=0, exp=101, dp=46, nan=DEF_NAN, inf=DEF_INF):
+    return "%s %s %s %s %s %d %d %d %s %s" % (mx, mn, pb, nb, rnd, trim, exp, dp, nan, inf)
+
+
+def load_hard(r, ty):
+    p = os.path.join(HARD_DIR, "r%d_%s.txt" % (r, ty))
+    if not os.path.exists(p):
+        return []
+    out = []
+    for line in open(p):
+        t = line.split()
+        if len(t) == 2:
+            out.append((int(t[0]), int(t[1])))
+    return out
+
+
+def exp_str(q, er):
+    return ("-" if q < 0 else "") + to_radix(abs(q), er)
+
+
+def lit(digits, q, r, er, point=None):
+    """digits (string) with optional point position, exponent q (in radix-r positions) written in radix er"""
+    e = chr(exp_char(r))
+    if point is None:
+        return "%s%s%s" % (digits, e, exp_str(q, er))
+    point = max(0, min(len(digits), point))
+    return "%s.%s%s%s" % (digits[:point], digits[point:], e, exp_str(q + (len(digits) - point), er))
+
+
+def hard_variants(m, q, r, er, rng, rich):
+    """literals around the worst case m*r^q"""
+    d = to_radix(m, r)
+    maxd = DIGITS[r - 1]
+    out = [lit(d, q, r, er)]
+    out.append(lit(d, q, r, er, point=rng.randint(0, len(d))))
+    if rich:
+        # truncation-crossing family: first u64-step digits land a unit away from the boundary
+        if m > 1:
+            dm = to_radix(m - 1, r)
+            k = rng.choice([1, 5, 30])
+            out.append(lit(dm + maxd * k, q - k, r, er))
+        k = rng.choice([1, 7, 30])
+        out.append(lit(d + "0" * k + "1", q - k - 1, r, er))
+        out.append(lit(to_radix(m + 1, r) + "0" * 3, q - 3, r, er))
+        # leading zeros / trailing zeros with compensating exponent
+        z = rng.randint(1, 25)
+        out.append(lit("0" * z + d + "0" * z, q - z, r, er, point=rng.randint(0, z)))
+    return out
+
+
+def long_tail_variants(m, q, r, er, rng):
+    d = to_radix(m, r)
+    maxd = DIGITS[r - 1]
+    out = []
+    for L in (20, 40, 767, 768, 769, 2000):
+        k = L - len(d)
+        if k <= 0:
+            continue
+        out.append(lit(d + "0" * (k - 1) + "1", q - k, r, er))
+        if m > 1:
+            out.append(lit(to_radix(m - 1, r) + maxd * k, q - k, r, er))
+    return out
+
+
+def float_fmt_for(r, fs):
+    return fmt_hex(pack(r))
+
+
+def pf_op(ty, fmt, s, r, partial=0, lossy=False, opts=None):
+    return "pf %s %s %d %s %s" % (ty, fmt, partial, opts or popts(r, lossy), hexs(s))
+
+
+def float_parse_hard_ops(rng, fs, rads, per_radix, rich=True, tails=0, lossy=False, types=("f64", "f32")):
+    ops = []
+    for r in rads:
+        fmt = float_fmt_for(r, fs)
+        for ty in types:
+            cases = load_hard(r, ty)
+            if not cases:
+                continue
+            pick = rng.sample(cases, min(per_radix, len(cases)))
+            for i, (m, q) in enumerate(pick):
+                for s in hard_variants(m, q, r, r, rng, rich):
+                    ops.append(pf_op(ty, fmt, s, r, partial=rng.choice([0, 0, 1]), lossy=lossy))
+                    if r == 10 and not lossy and rng.random() < 0.15:
+                        ops.append("dpf %s %d %s" % (ty, rng.choice([0, 1]), hexs(s)))
+                if i < tails:
+                    for s in long_tail_variants(m, q, r, r, rng):
+                        ops.append(pf_op(ty, fmt, s, r, lossy=lossy))
+    return ops
+
+
+def float_exp_ops(rng, fs, rads, lossy=False):
+    """G-exp: exponents at the fast-path / zero / infinity cut-offs and absurd magnitudes"""
+    ops = []
+    for r in rads:
+        fmt = float_fmt_for(r, fs)
+        for ty, (p, eb) in FLOAT_TYPES.items():
+            import math
+            emax = int((2 ** (eb - 1)) / math.log2(r))
+            emin = int((2 ** (eb - 1) + p) / math.log2(r))
+            qs = set()
+            for c in (0, 1, 10, 15, 22, 23, 37, 38, emax - 1, emax, emax + 1, emax + 2, emin - 1, emin, emin + 1, emin + 2,
+                      emax + 19, emin + 19, 0xFFFFFFF, 0x10000000, 0x10000001, 10 ** 20, 2 ** 63, 2 ** 64 + 5):
+                qs.add(c)
+                qs.add(-c)
+            for q in sorted(qs):
+                for d in ("1", "9" if r > 9 else DIGITS[r - 1], "123456789"[:min(9, r - 1)] or "1",
+                          DIGITS[r - 1] * 19, "1" + "0" * 30, "0." + "0" * 30 + "1", "0", "0.0", "17976931348623158"[:17] if r == 10 else "101"):
+                    e = chr(exp_char(r))
+                    s = "%s%s%s" % (d, e, exp_str(q, r))
+                    ops.append(pf_op(ty, fmt, s, r, partial=rng.choice([0, 1]), lossy=lossy))
+    return ops
+
+
+def float_random_ops(rng, fs, rads, n, lossy=False):
+    ops = []
+    for r in rads:
+        fmt = float_fmt_for(r, fs)
+        for _ in range(n):
+            ty = rng.choice(["f64", "f32"])
+            nd = rng.choice([1, 2, 5, 8, 9, 15, 16, 17, 18, 19, 20, 21, 25, 40])
+            d = "".join(DIGITS[rng.randrange(r)] for _ in range(nd))
+            pt = rng.choice([None, rng.randint(0, nd)])
+            q = rng.randint(-30, 30) if rng.random() < 0.6 else rng.randint(-400, 400)
+            s = lit(d, q, r, r, point=pt) if rng.random() < 0.8 else (d if pt is None else d[:pt] + "." + d[pt:])
+            s = rng.choice(["", "", "-", "+"]) + s
+            if rng.random() < 0.1:
+                s += rng.choice(["x", " ", "e", ".", "_", "e+", "\xff"])
+            ops.append(pf_op(ty, fmt, s.encode("latin-1"), r, partial=rng.choice([0, 1]), lossy=lossy))
+    return ops
